@@ -161,6 +161,18 @@ def stored_encoding(vs):
     return out
 
 
+def state_block(rest):
+    """the encoded state at the head of `rest` (cut by structure, not by searching the separator)"""
+    if rest and rest[0] in (-98, -99):
+        return rest[:1]
+    n = rest[0]
+    pos = 1
+    for _ in range(n):
+        pos += 3 + 2 * rest[pos + 2]
+    pos += 1 + rest[pos]            # subsections: count, names
+    return rest[:pos]
+
+
 def prop_values(state, name):
     """the [n, tag, v, ...] block of property `name` in an encoded state"""
     n = state[0]
@@ -194,10 +206,12 @@ def run(ctx):
         # trace predicate on the implementation alone: a refused store leaves every stored value as it was
         prev = None
         for o, ob in zip(ops, obs):
-            i1 = ob.index(-7)
+            # [result] -7 [state] -7 [dict view]; a stored value may itself be -7, so the result is cut by its structure
+            i1 = {0: 1, 2: 2, 4: 2}.get(ob[0], 2 + 2 * ob[1] if ob[0] == 1 else None)
+            if i1 is None or ob[i1] != -7:
+                raise RuntimeError("malformed observation %r" % (ob[:12],))
             res, rest = ob[:i1], ob[i1 + 1:]
-            i2 = rest.index(-7)
-            state = rest[:i2]
+            state = state_block(rest)
             if res[0] == 2 and prev is not None and state != prev and res[1] in (2, 3, 5, 1, 8):
                 failures.append(("a refused call changed the stored values", {"history": ops[:ops.index(o) + 1]}, {"error_class": res[1]}))
             if o[0] in ("set", "create", "dset") and res[0] == 0 and o[0] != "dset" and (o[0] != "set" or o[3] in ("list", "scalar")):
